@@ -44,4 +44,21 @@ SlotOf(idx, i) == CHOOSE k \in 1..Len(idx) : idx[k] + 1 = i
 SwzWrite(idx, dst, val) == [i \in 1..Len(dst) |-> IF Named(idx, i) THEN val[SlotOf(idx, i)] ELSE dst[i]]
 \* assignment of one scalar through a writable swizzle: every named component receives it
 SwzFill(idx, dst, t) == [i \in 1..Len(dst) |-> IF Named(idx, i) THEN t ELSE dst[i]]
+
+(***************************************************************************)
+(* Known deviation KD-C17-swizzle-same-accessor-assign (operator form):    *)
+(* `dst.NAME = other.NAME` - the same accessor on both sides - selects the *)
+(* implicitly generated copy assignment of detail::_swizzle, which copies  *)
+(* the one-byte placeholder `char _buffer[1]` at offset 0 of the vector    *)
+(* and nothing else.  Observed result, pinned exactly: every component of  *)
+(* the destination keeps its value, except that the least significant      *)
+(* byte of component 0 (named or not) becomes that of the other vector.    *)
+(* Components are lists of 16-bit limbs, least significant first.          *)
+(***************************************************************************)
+KD_SwizzleSameTypeAssign(t, dst, oth, r) ==
+    /\ Len(r) = Len(dst) /\ Len(oth) = Len(dst)
+    /\ \A i \in 2..Len(dst) : r[i] = dst[i]
+    /\ Len(r[1]) = Len(dst[1])
+    /\ r[1][1] = (dst[1][1] - (dst[1][1] % 256)) + (oth[1][1] % 256)
+    /\ \A j \in 2..Len(dst[1]) : r[1][j] = dst[1][j]
 =============================================================================
